@@ -19,7 +19,8 @@ RULE = ("(1) Traced runs from the shared end-to-end generator that converged (ru
         "not change when the shift is added to the data (and to the means). A value that instead equals the same formula "
         "centred on the scalar mean of all entries matches the signature of known finding KF2; any third value is a "
         "violation. Non-trivial = the per-column and scalar-centre formulas differ by more than 1e-6 relative (so the check "
-        "can tell them apart); distinct by SHA-1 of the case.")
+        "can tell them apart); distinct by SHA-1 of the case."
+        ' Function-level data also Fortran-ordered / transposed view / row-strided, and a second call on the same array object after an in-place translation.')
 ASSUMPTIONS = ["exit reason (converged) is read from the guarded run_end hook", "runs where some cluster is empty or that stopped at the limit are outside the property's quantifier (discarded)"]
 
 
@@ -69,7 +70,9 @@ def function_case(draw):
                        st.sampled_from([4097, 4700, 8200, 9001])))
     return {"nw": nw if T < 1000 else min(nw, 3), "K": K, "T": T, "seed": draw(st.integers(0, 2 ** 32 - 1)), "min_size": draw(st.sampled_from([1, 1, 2])), "noise_scale": draw(st.sampled_from([1.0, 1.0, 1.0, 1e-3, 1e-5])), "data_dtype": draw(st.sampled_from(["float64", "float64", "float64", "int64", "int32"])),
             "col_offsets": draw(st.sampled_from(["none", "small", "large"])),
-            "shift_scale": draw(st.sampled_from([0.5, 10.0, 1000.0]))}
+            "shift_scale": draw(st.sampled_from([0.5, 10.0, 1000.0])),
+            "layout": draw(st.sampled_from(["C", "C", "F", "transposed_view", "row_strided"])),
+            "second_call_on_same_array": draw(st.sampled_from([False, False, True]))}
 
 
 def _build(case, shift=None):
@@ -98,6 +101,15 @@ def _build(case, shift=None):
         data = data + sh
     if case.get("data_dtype", "float64") != "float64":
         data = np.round(data * 4.0).astype(case["data_dtype"])        # an integer-typed stacked array
+    lay = case.get("layout", "C")
+    if lay == "F":
+        data = np.asfortranarray(data)
+    elif lay == "transposed_view":
+        data = np.ascontiguousarray(data.T).T               # what X.T of an (NW, T) array is
+    elif lay == "row_strided":
+        big = np.zeros((2 * len(data), data.shape[1]), dtype=data.dtype)
+        big[::2] = data
+        data = big[::2]
     args = arguments.UserArguments(sparsity_weight=0.1, iteration_limit=1, label_switching_cost=1.0, min_cluster_size=2,
                                    min_meaningful_covariance=0, num_clusters=K, num_processors=1, window_size=1,
                                    biased_covariance=False)
@@ -116,9 +128,18 @@ def execute_function(case, t):
     data2, _, ms2 = _build(case, shift=True)
     try:
         v1 = cluster_metrics.calinski_harabasz_index(data, ms)
+        if case.get("second_call_on_same_array"):
+            # the caller translates its own array in place and asks again: same object, same shape, other numbers
+            data[...] = data2
+            for k in range(K):
+                ms.clusters[k].stacked_data_mean = ms2.clusters[k].stacked_data_mean
+            data2, ms2 = data, ms
+            t.cls("second_call_on_the_same_array_object")
         v2 = cluster_metrics.calinski_harabasz_index(data2, ms2)
     except Exception as e:
         raise Violation(f"calinski_harabasz_index raised {type(e).__name__}: {e}")
+    if case.get("second_call_on_same_array"):
+        data, _, _ = _build(case)            # the first call's numbers, for the reference value of v1
     # squared distances of size sigma^2 computed from coordinates of size M carry a relative rounding error ~ 2 eps M / sigma
     sigma = case.get("noise_scale", 1.0)
     rel1 = 1e-9 + 16 * 2.2e-16 * float(np.max(np.abs(data))) / sigma
@@ -128,6 +149,8 @@ def execute_function(case, t):
     if sigma < 1:
         t.cls("tiny_within_cluster_dispersion")
     t.cls(f"col_offsets_{case['col_offsets']}")
+    if case.get("layout", "C") != "C":
+        t.cls(f"layout_{case['layout']}")
     if case.get("data_dtype", "float64") != "float64":
         t.cls("integer_typed_data")
     if case["T"] > 4096:
